@@ -49,7 +49,7 @@ func TestC17(t *testing.T) {
 		"the free-space test of Merge uses the real file system (tens of GB free here), so ErrNoEnoughSpaceForMerge can only come from drifted counters",
 		"bounds as C01")
 	defer finishProperty(st)
-	rapid.Check(t, func(t *rapid.T) {
+	checkCases(t, st, func(t *rapid.T) {
 		runHistoryCase(t, "C17", c17Profile, func(r *kvh.Runner) bool {
 			return r.F.Rewrites >= 1 && (r.F.Batches >= 1 || r.F.Reopens >= 1)
 		})
